@@ -312,7 +312,7 @@ def live_phase(ctx):
         ctx.violation(what, f, found_input=("raw_hex" in f or f.get("class") in ("stall", "oversize")))
 
 
-def run(ctx):
+def _run_own(ctx):
     ctx.level = "proof"
     ctx.cov["rule"] = ("hostile streams over the wire protocol against the ASan+LSan daemon rebuilt from /repo: type codes x "
                        "length fields x bodies, every truncation point of each message layout, malformed ENC_REQ/DEC_REQ "
@@ -327,3 +327,11 @@ def run(ctx):
         ctx.violation("proof obligation no longer checks: %s" % getattr(ctx, "broken_obligation", "?"),
                       {"obligation": getattr(ctx, "broken_obligation", "?"), "log": ctx.proof_log[-3000:]},
                       found_input=False)
+
+
+def run(ctx):
+    """the property's own check, then the component check of the socket I/O loops (fd.c) that every request and reply of
+    this property goes through: Properties_FD.v + correspondence FdModel ~ /repo's fd.c (tools/props/fd_common.py)"""
+    _run_own(ctx)
+    from props import fd_common
+    fd_common.fd_phase(ctx)
